@@ -21,6 +21,8 @@ LEVEL = "proof"
 TECHNIQUE = "Lean 4 fold model + AST-regenerated interface table (decide) + recording stubs + real-kernel sweep"
 RULE = ("stub kernels: 1-3 consecutive event() calls on one kernel object (events may repeat; between calls the "
         "antenna container may be changed IN PLACE: antenna appended, removed, all objects replaced), each event 1-5 "
+        "particles incl. NON-SHOWERING ones (shower fractions 0, energy exactly 0, a lepton with the base Interaction "
+        "model; in the real run also nu_tau -> tau -> decay chains), which are particles like any other; 1-5 "
         "particles (roots and children, particles sharing a vertex, the same Particle object twice), 1-3 antennas, "
         "tracer table none | 0..3 paths per (vertex, antenna), signal model refusing some (particle, path) pairs, "
         "aliasing probes (received signals / writer lists must not share or later change state), viewing angles "
@@ -32,7 +34,8 @@ RULE = ("stub kernels: 1-3 consecutive event() calls on one kernel object (event
         "Particle objects): {Specialized, Basic, Uniform(+UniformIce), "
         "Layered(+LayeredIce)} x {ARZ, AVZ, ZHS} x {Cylindrical, Rectangular, List, File} x offcone {None,5} x "
         "weight_min {None,0.1,(0.5,0.5)} x interpolation {None,0.1} x writer x trigger {None,fn,dict}, three antennas "
-        "(one above the ice); a viewing-angle sweep 0.5..179.5 degrees (also behind the shower axis) for ZHS / AVZ / ARZ / "
+        "(one above the ice); a viewing-angle sweep 0.5..179.5 degrees (also behind the shower axis; Specialized, Uniform, and "
+        "Uniform with one reflection so that second solutions have path_length >> separation) for ZHS / AVZ / ARZ / "
         "ARVZ; stored values compared with model(angle, distance) -> propagate -> antenna response (rel 1e-9) in the "
         "sweep and on a sample of the other events; quick samples the product, thorough enumerates it; non-trivial = at least one signal "
         "received; distinct = distinct requests")
@@ -140,13 +143,15 @@ def make_stubs(ctx, log):
 
     class StubSignal(Signal):
         def __init__(self, times, particle, viewing_angle, viewing_distance=1, ice_model=None, t0=0):
-            pathid = int(np.floor(viewing_distance - 100.0))
+            # the keyword must be exactly the path length of ONE ray solution of this event (recorded as given)
+            pathid = ctx["by_length"].get(float(viewing_distance))
             log.append(("signal", particle, pathid, float(viewing_angle), ice_model is ice, times,
                         float(viewing_distance)))
-            if (particle._pid, pathid) in ctx["refuse"]:
+            if pathid is not None and (particle._pid, pathid) in ctx["refuse"]:
                 raise ValueError("stub signal model refuses particle %d path %d" % (particle._pid, pathid))
             super().__init__(times, np.ones(len(times)), Signal.Type.field)
             self._pid = particle._pid
+            self._pathid = pathid
 
     class StubAntenna:
         def __init__(self, i):
@@ -203,8 +208,18 @@ def build_event(evd):
     for pe in evd["particles"]:
         if pe["dup_of"] is not None:
             continue
-        p = pyrex.Particle("nu_e", vertex=stub_vertex(pe["vid"]), direction=pe["dir"], energy=1e9,
-                           interaction_type="cc", weight=pe["forced"])
+        shower = pe.get("shower", "normal")
+        if shower == "base_model":       # a lepton with the base interaction model: shower fractions (0, 0)
+            p = pyrex.Particle("tau", vertex=stub_vertex(pe["vid"]), direction=pe["dir"], energy=1e9,
+                               interaction_model=pyrex.particle.Interaction, weight=pe["forced"])
+        else:
+            p = pyrex.Particle("nu_e", vertex=stub_vertex(pe["vid"]), direction=pe["dir"], energy=1e9,
+                               interaction_type="cc", weight=pe["forced"])
+            if shower == "zero_energy":
+                p.energy = 0.0           # (the interaction model cannot be constructed at energy 0)
+            if shower == "zero_frac":
+                p.interaction.em_frac = 0
+                p.interaction.had_frac = 0
         p.survival_weight = pe["sw"]
         p.interaction_weight = pe["iw"]
         p._pid = pe["id"]
@@ -237,7 +252,7 @@ def run_stub(case):
     from pyrex.signals import EmptySignal
     from pyrex.generation import ListGenerator
     log = Log()
-    ctx = {"paths": {}, "refuse": set()}
+    ctx = {"paths": {}, "refuse": set(), "by_length": {}}
     ice, build_paths, StubTracer, StubSignal, StubAntenna, Writer = make_stubs(ctx, log)
     built = []
     for evd in case["events"]:
@@ -312,6 +327,7 @@ def run_stub(case):
             a.calls = []                                            # anything they get from now on is a fault
         ctx["paths"] = paths = build_paths(evd["table"])       # fresh path objects for every call
         ctx["refuse"] = {tuple(x) for x in evd["refuse"]}
+        ctx["by_length"] = {float(path.path_length): path.id for sols in paths.values() if sols for path in sols}
         for a in ants:
             a.clear()                                           # what detector.clear() does between events
         del log[:]
@@ -398,13 +414,16 @@ def run_stub(case):
                 bad.append("tracer-ice")
             if ent[0] == "signal":
                 _, p, pathid, va, ice_ok, tms, vd = ent
-                if not ice_ok or tms is not kern.signal_times or va != psi_of[(p._pid, pathid)] \
+                if pathid is None:
+                    bad.append("viewing_distance=%r-is-no-solution's-path_length" % vd)
+                elif not ice_ok or tms is not kern.signal_times or va != psi_of[(p._pid, pathid)] \
                         or vd != allpaths[pathid].path_length:
                     bad.append("signal-args")
             if ent[0] == "propagate":
                 _, pid, pathid, sig, pol, interp = ent
                 exp = nu_pol(np, ps[pid].direction, allpaths[pathid].emitted_direction)
-                if not isinstance(sig, StubSignal) or interp != case["interp"] or not np.array_equal(pol, exp):
+                if not isinstance(sig, StubSignal) or interp != case["interp"] or not np.array_equal(pol, exp) \
+                        or sig._pathid != pathid:          # the pulse built for THIS solution's path length
                     bad.append("propagate-args")
 
         def trig_txt(tr):
@@ -443,6 +462,9 @@ def run_stub(case):
                 ";".join(",".join(str(p.id) for p in l) for l in w["ray_paths"]),
                 ";".join(",".join(pol_id(v, i) for v in l) for i, l in enumerate(w["polarizations"])))
             for i, seg in enumerate(segs):
+                if i >= len(w["ray_paths"]) or i >= len(w["polarizations"]):
+                    segs[i] = seg + " r ? q ?"            # the writer got fewer lists than there are antennas
+                    continue
                 segs[i] = seg + " r %d" % len(w["ray_paths"][i]) + "".join(" %d" % p.id for p in w["ray_paths"][i]) \
                     + " q %d" % len(w["polarizations"][i]) + "".join(" " + pol_id(v, i) for v in w["polarizations"][i])
             # the writer's lists are the kernel's own, not the tracers' solution lists, and distinct per antenna
@@ -495,7 +517,9 @@ def gen_stub_event(rng, nant, theta_c):
             d = b          # exactly axis-aligned: a path may leave exactly along it (psi = 0, nu_pol = 0 vector)
         particles.append({"id": k + 1, "vid": rng.randint(1, nvid), "sw": rng.choice(wpool), "iw": rng.choice(wpool),
                           "forced": rng.choice([None, None, None, None, 0.0, 1 / 8, 1 / 4, 1.0]), "dir": d, "base": b,
-                          "parent": None if k == 0 or rng.random() < 0.6 else rng.randint(1, k), "dup_of": None})
+                          "parent": None if k == 0 or rng.random() < 0.6 else rng.randint(1, k), "dup_of": None,
+                          # a particle that puts no energy into showers is a particle like any other
+                          "shower": rng.choice(["normal"] * 5 + ["zero_frac", "zero_energy", "base_model"])})
     if particles and rng.random() < 0.3:               # the same Particle object once more, as a root
         src = rng.choice(particles)
         particles.append(dict(src, parent=None, dup_of=src["id"]))
@@ -659,6 +683,8 @@ class RealSetup:
             "spec": (SpecializedRayTracer, AntarcticIce()),
             "basic": (BasicRayTracer, AntarcticIce()),
             "uni": (UniformRayTracer, UniformIce(1.6)),
+            "unir": (type("UniformRayTracerRefl", (UniformRayTracer,), {"max_reflections": 1}),
+                     UniformIce(1.6, valid_range=(-1000, 0))),          # reflected solutions: path length >> separation
             "lay": (LayeredRayTracer, LayeredIce([UniformIce(1.5, valid_range=(-200, 0), index_above=1),
                                                   UniformIce(1.7, valid_range=(-3000, -200), index_above=None)])),
         }
@@ -672,7 +698,7 @@ class RealSetup:
     def close(self):
         shutil.rmtree(self.tmp, ignore_errors=True)
 
-    def list_events(self, rng, light=False):
+    def list_events(self, rng, light=False, tau_ok=True):
         """multi-particle events: particles of one interaction share a vertex, and one Particle object
         may appear twice in an event.  `light`: two particles (+ repeat) only - every on-cone pulse costs
         ~0.3 s in Antenna.receive (deep copy of the propagated FunctionSignal), which matters when nothing is cut"""
@@ -694,7 +720,26 @@ class RealSetup:
                 ps.append(p)
             if rng.random() < (0.3 if light else 0.5):
                 ps.append(ps[rng.randrange(len(ps))])
-            evs.append(pyrex.Event(ps))
+            # non-showering particles in the middle of the event: shower fractions set to 0, energy exactly 0
+            for p in ps[:1]:
+                r = rng.random()
+                if r < 0.25:
+                    p.interaction.em_frac = 0
+                    p.interaction.had_frac = 0
+                elif r < 0.4 and tau_ok:         # (nor can a FileGenerator rebuild a particle of energy exactly 0)
+                    p.energy = 0.0
+            ev = pyrex.Event(ps)
+            if tau_ok and not light and rng.random() < 0.5:     # (a FileGenerator cannot rebuild a charged lepton;
+                # and every uncut pulse costs ~0.4 s of deep copying in Antenna.receive, hence not in `light` events)
+                # nu_tau -> tau (base Interaction model: no shower) -> decay shower
+                tau = pyrex.Particle("tau", vertex=verts[0], direction=ps[0].direction, energy=10 ** rng.uniform(8, 8.7),
+                                     interaction_model=pyrex.particle.Interaction)
+                decay = pyrex.Particle("nu_e", vertex=(verts[0][0] + 5.0, verts[0][1], verts[0][2] - 3.0),
+                                       direction=ps[0].direction, energy=10 ** rng.uniform(8, 8.5),
+                                       interaction_type="cc")
+                ev.add_children(ps[0], [tau])
+                ev.add_children(tau, [decay])
+            evs.append(ev)
         return evs
 
     def angle_event(self, alpha_deg, tracer, ice):
@@ -726,7 +771,7 @@ class RealSetup:
         if self.file is None:
             self.file = os.path.join(self.tmp, "events.h5")
             with File(self.file, "w", write_rays=False, write_triggers=False, require_trigger=False) as f:
-                for ev in self.list_events(rng, True) + self.list_events(rng, False):
+                for ev in self.list_events(rng, True, tau_ok=False) + self.list_events(rng, False, tau_ok=False):
                     f.add(ev)
         return FileGenerator(self.file)
 
@@ -776,13 +821,16 @@ def angle_combos(rng, everything):
     out = []
     for sname in ("ZHS", "AVZ", "ARZ", "ARVZ"):
         if everything:
-            picks = [(a, o, t) for a in SWEEP_ANGLES for o in (None, 40) for t in ("spec", "uni")]
+            picks = [(a, o, t) for a in SWEEP_ANGLES for o in (None, 40) for t in ("spec", "uni", "unir")]
         else:
-            picks = [(rng.choice([a for a in SWEEP_ANGLES if a < 90]), rng.choice([None, 40]), rng.choice(["spec", "uni"])),
-                     (rng.choice([a for a in SWEEP_ANGLES if a > 90]), None, rng.choice(["spec", "uni"])),
+            picks = [(rng.choice([a for a in SWEEP_ANGLES if a < 90]), rng.choice([None, 40]),
+                      "spec" if sname in ("ZHS", "ARZ") else "unir"),
+                     (rng.choice([a for a in SWEEP_ANGLES if a > 90]), None, rng.choice(["spec", "uni", "unir"])),
                      (rng.choice([91.0, 93.0]), 40, "spec")]
-        for a, o, t in picks:
-            out.append((t, sname, "ang:%s" % a, o, None, 0.1, True, "N"))
+        for j, (a, o, t) in enumerate(picks):
+            # attenuation_interpolation None (no interpolation, documented) and 0.1 both occur with delivered pulses
+            interp = (None if j % 2 == 0 else 0.1) if everything else (None if j == 0 else 0.1)
+            out.append((t, sname, "ang:%s" % a, o, None, interp, True, "N"))
     return out
 
 
@@ -1220,6 +1268,8 @@ def correspondence(run):
         run.count("stub_recv_empty", imp.count(" E "))
         run.count("stub_recv_pulse", imp.count(" P "))
         run.count("stub_event_index_%d" % k)
+        run.count("stub_events_with_non_showering_particle",
+                  int(any(pe.get("shower", "normal") != "normal" for pe in evd["particles"])))
         run.count("stub_zero_antennas", int(c["events"][k].get("nant", c["nant"]) == 0))
         run.count("stub_container_changed_in_place_%s" % c["events"][k].get("change"))
         run.count("stub_empty_event", int(not evd["particles"]))
@@ -1394,7 +1444,7 @@ def search(run, deep):
         combos = all_combos()
         chosen = run.rng.sample(combos, 20 if not deep else 60)   # the correspondence run enumerates the product
         sweep = angle_combos(run.rng, False)
-        chosen = chosen + (sweep if deep else run.rng.sample(sweep, 6))
+        chosen = chosen + sweep
         for combo in chosen:
             why = real_oracle(setup, combo, run.rng)
             run.case(("real-oracle", combo, run.rng.random()))
